@@ -21,7 +21,7 @@ def main():
         # safety net: a shard that explodes (combinatorial ALL set) dies alone with MemoryError -> inconclusive
         import resource
 
-        gb = float(os.environ.get("VERIF_SHARD_MEM_GB", "6"))
+        gb = float(os.environ.get("VERIF_SHARD_MEM_GB", "3"))
         resource.setrlimit(resource.RLIMIT_AS, (int(gb * 2**30), int(gb * 2**30)))
     except (ImportError, ValueError, OSError):
         pass
@@ -76,10 +76,19 @@ def main():
         res = ctx.result()
         res["ok"] = True
         res["inconclusive"].append(str(exc))
-    except BaseException as exc:  # harness error: never a verdict
-        res = ctx.result()
-        res["ok"] = False
-        res["error"] = "".join(traceback.format_exception(exc))[-6000:]
+    except BaseException as exc:  # noqa: B902
+        from rv.core import SkipCase
+
+        if isinstance(exc, SkipCase):
+            # a per-call budget hit outside a skippable check function: the shard is cut short, what it observed stands
+            ctx.count("skipped_budget")
+            ctx.notes.append(f"shard cut short, per-call budget exceeded: {exc}")
+            res = ctx.result()
+            res["ok"] = True
+        else:
+            res = ctx.result()
+            res["ok"] = False
+            res["error"] = "".join(traceback.format_exception(exc))[-6000:]
     res["reach"] = {k: sorted(v) for k, v in reach.items()}
     with open(out_path, "w") as fh:
         json.dump(res, fh)
